@@ -261,6 +261,14 @@ def corpus():
         b = _small(rng, genb.rnd_bundle(rng, nblocks=rng.randrange(0, 4), crc_kind=0))
         ref, spans, lens, crcs = _meta(b)
         out.append(_line(ref, "N", 0, lens, crcs))
+    # a block of type 11 whose data reads as an RFC 9172 security block header naming the other blocks as its targets: the CRC of those
+    # blocks is checked like any other (pinned: seeded change C05-m13 was caught by a random draw only)
+    for ck, asb in ((1, "81010100820100"), (2, "8201030100820100"), (1, "810101008202820101")):
+        pb = dict(p=dict(W_B0["p"], crc=("E16",) if ck == 1 else ("E32",)),
+                  cs=[dict(type=11, num=2, flags=0, crc=("E16",) if ck == 1 else ("E32",), data=("UNK", bytes.fromhex(asb))),
+                      dict(type=10, num=3, flags=0, crc=("E16",) if ck == 1 else ("E32",), data=("HOP", 32, 1)),
+                      dict(type=1, num=1, flags=0, crc=("E16",) if ck == 1 else ("E32",), data=("DATA", b"\x01\x02\x03"))])
+        out += corruptions(rng, pb)
     # uncorrupted bundles in which the correct CRC of a block is exactly zero (1 block in 65536 / 2^32: the value coincides with the
     # all-zero placeholder of a CRC that was never calculated): they must pass like any other uncorrupted bundle
     seen = set()
